@@ -343,6 +343,66 @@ def run_roots(case):
     return ck.result()
 
 
+SCALES = [[1, 10], [1, 100], [1, 1000], [1, 10000], [10, 1], [100, 1], [1000, 1], [1, 1]]
+
+
+def roots_scaled_strategy(tier):
+    rat = st.tuples(st.integers(-9, 9), st.sampled_from([1, 1, 2, 3])).map(list)
+
+    @st.composite
+    def s(draw):
+        deg = draw(st.sampled_from([2, 3, 3, 3]))
+        cplx = draw(st.sampled_from([False, False, True]))
+        rs = [["c", draw(st.integers(-5, 5)), draw(st.integers(1, 5))]] + ([draw(rat)] if deg == 3 else []) if cplx else [draw(rat) for _ in range(deg)]
+        return {"deg": deg, "roots": rs, "lead": draw(st.sampled_from([1, 1, -1, 2, -3, 5])), "scale": draw(st.sampled_from(SCALES)), "center": draw(st.sampled_from([0, 0, 0, 1, -2]))}
+
+    return s()
+
+
+def run_roots_scaled(case):
+    """the roots of p(x / s) are s times the roots of p: simple, well separated roots (differences at least 1/3 before scaling) multiplied by
+    s = 1e-4 ... 1e3 - small roots are small, not "equal up to rounding" - and, for s >= 1e-2, shifted by 1 or -2 (a cluster of roots)"""
+    if case["scale"] not in SCALES or case["center"] not in (0, 1, -2):
+        raise Skip("malformed")
+    sc = Fraction(case["scale"][0], case["scale"][1])
+    ctr = Fraction(case["center"]) if sc >= Fraction(1, 100) else Fraction(0)
+    zs = []
+    for r in case["roots"]:
+        zs += [(Fraction(r[1]), Fraction(r[2])), (Fraction(r[1]), -Fraction(r[2]))] if r[0] == "c" else [(Fraction(r[0], r[1]), Fraction(0))]
+    if len(zs) != case["deg"] or any(abs(a[0] - b[0]) + abs(a[1] - b[1]) < Fraction(1, 3) for i, a in enumerate(zs) for b in zs[:i]):
+        raise Skip("roots not separated")
+    # exact coefficients of lead * prod (x - (ctr + sc * z)); conjugate pairs are multiplied out first, so everything stays rational
+    coeffs = [Fraction(case["lead"])]
+    done = set()
+    for i, (a, b) in enumerate(zs):
+        if i in done:
+            continue
+        if b != 0:
+            j = zs.index((a, -b))
+            done.add(j)
+            fac = [Fraction(1), -2 * (ctr + sc * a), (ctr + sc * a) ** 2 + (sc * b) ** 2]
+        else:
+            fac = [Fraction(1), -(ctr + sc * a)]
+        new = [Fraction(0)] * (len(coeffs) + len(fac) - 1)
+        for k, x in enumerate(coeffs):
+            for m, y in enumerate(fac):
+                new[k + m] += x * y
+        coeffs = new
+    arr = np.array([float(x) for x in coeffs])
+    want = [complex(float(ctr + sc * a), float(sc * b)) for a, b in zs]
+    r, f = call("roots", U.roots, arr)
+    if f:
+        return [f]
+    r = np.atleast_1d(np.asarray(r, dtype=complex))
+    ck = Checker()
+    site = f"roots-rescaled:deg{case['deg']}" + (":cluster" if ctr else "")
+    tol = (1e-5 if ctr else 1e-9) * float(sc) * 10
+    if ck.check(len(r) == len(want) and bool(np.all(np.isfinite(r))), site + ":count", (r.tolist(), want)):
+        for z in want:
+            ck.check(np.any(np.abs(r - z) <= tol), site + ":missing-root", (z, r.tolist(), float(sc)))
+    return ck.result()
+
+
 # ----------------------------------------------------------------------------------------------------- is_multiple
 def ismult_strategy(tier):
     @st.composite
@@ -595,6 +655,9 @@ LAWS = [
     Law("roots", roots_strategy, run_roots, lambda c: len(c["roots"]) != len({json_key(r) for r in c["roots"]}) or any(r[0] == "c" for r in c["roots"]),
         lambda c: [f"deg{c['deg']}", "lead-zeros" if c["lead_zeros"] else "plain"] + (["repeated"] if len(c["roots"]) != len({json_key(r) for r in c["roots"]}) else []),
         {"quick": 600, "thorough": 10000}, "roots of polynomials from planted rational/complex roots incl. double/triple", mandatory=("repeated", "deg3")),
+    Law("roots_rescaled", roots_scaled_strategy, run_roots_scaled, lambda c: c["scale"] != [1, 1], lambda c: [f"deg{c['deg']}", "scale=%g" % (c["scale"][0] / c["scale"][1])] + (["cluster"] if c["center"] and c["scale"][0] * 100 >= c["scale"][1] else []),
+        {"quick": 1200, "thorough": 20000}, "simple, well separated roots multiplied by s = 1e-4 ... 1e3 (and shifted to a cluster around 1 or -2 for s >= 1e-2): the roots of the rescaled polynomial are the rescaled roots, to 1e-8 s", shard=300,
+        mandatory=("scale=0.0001", "scale=0.001", "scale=1000", "cluster")),
     Law("is_multiple", ismult_strategy, run_ismult, lambda c: c["rel"] != "not", lambda c: [c["rel"], c["axis"], "complex" if c["cplx"] else "real"],
         {"quick": 600, "thorough": 10000}, "is_multiple vs exact proportionality, symmetric, zero vector multiple of everything"),
     Law("is_multiple_axes2", ismult2_strategy, run_ismult2, lambda c: True, lambda c: [c["rel"]] + (["non-trailing-axes"] if c["batch"] >= 2 else []), {"quick": 200, "thorough": 3000},
